@@ -515,7 +515,18 @@ func Solve(body []gen.LitV, m *Model, neg *Model) ([]env, error) {
 						kind = 2
 					}
 				} else {
+					// function expressions among the arguments are inputs: the atom can only be looked up
+					// once their variables have values
 					kind = 3
+					for _, a := range l.Args {
+						if a.K == "fn" {
+							vs := map[string]bool{}
+							termVars(a, vs)
+							if !allBound(vs, s.e) {
+								kind = 9
+							}
+						}
+					}
 				}
 			default:
 				return ErrUnsupported
@@ -1306,10 +1317,10 @@ func Safe(c gen.ClauseV) (ok bool, why string) {
 			case "eq":
 				lv := l.L.K == "var" && l.L.Name != "_"
 				rv := l.R.K == "var" && l.R.Name != "_"
-				if termBound(*l.L) && rv {
+				if termBound(*l.L) && !hasWildcard(*l.L) && rv {
 					bound[l.R.Name] = true
 				}
-				if termBound(*l.R) && lv {
+				if termBound(*l.R) && !hasWildcard(*l.R) && lv {
 					bound[l.L.Name] = true
 				}
 			}
@@ -1380,6 +1391,8 @@ func Safe(c gen.ClauseV) (ok bool, why string) {
 		}
 	}
 	for _, stmts := range c.Transforms {
+		isLet := len(stmts) > 0 && stmts[0].Var != ""
+		sofar := map[string]bool{}
 		for _, s := range stmts {
 			vs := map[string]bool{}
 			termVars(s.Fn, vs)
@@ -1387,6 +1400,14 @@ func Safe(c gen.ClauseV) (ok bool, why string) {
 				if !bound[v] && !defs[v] {
 					return false, "transform-argument"
 				}
+				if isLet && !bound[v] && !sofar[v] {
+					// let statements are evaluated in order: a statement can only use what the body or an
+					// earlier statement defines
+					return false, "transform-forward-reference"
+				}
+			}
+			if s.Var != "" {
+				sofar[s.Var] = true
 			}
 		}
 	}
